@@ -62,6 +62,13 @@ VARIANTS = [
     ("C03", "mutant", P + "irregularlybin.py", "        weights = weights.copy()\n        weights[selection] = 0.0", "        weights = weights.copy()\n        weights[selection] = 0.0\n        newentries = weights.sum()", "entries from the masked weights"),
     ("C03", "neutral", P + "sum.py", "        numpy.bitwise_not(selection, selection)\n        numpy.bitwise_and(selection, weights > 0.0, selection)\n        q = q[selection]", "        selection = numpy.bitwise_not(selection)\n        numpy.bitwise_and(selection, weights > 0.0, selection)\n        q = q[selection]", "fresh mask instead of in-place"),
     ("C03", "mutant", P + "fraction.py", "        w = w * weights\n        w[numpy.isnan(w)] = 0.0\n        w[w < 0.0] = 0.0\n", "        w = numpy.array(w, dtype=numpy.float64)\n        w[numpy.isnan(w)] = 0.0\n        w[w < 0.0] = 0.0\n        w = w * weights\n", "inf * 0 weight reaches the numerator as NaN"),
+    # ---------------- round g additions
+    ("C11", "neutral", "histogrammar/util.py", "    g = dict(globals(), **refs)\n", "    g = dict(globals())\n    g.update(refs)\n", "namespace in two steps, references last"),
+    ("C11", "mutant", "histogrammar/util.py", "    g = dict(globals(), **refs)\n", "    g = dict(refs, **globals())\n", "globals override the captured references"),
+    ("C15", "neutral", P + "count.py", "        if entries < 0.0:\n            raise ValueError(f\"entries ({entries}) cannot be negative\")\n        out = Count()\n", "        out = Count()\n        if entries < 0.0:\n            raise ValueError(f\"entries ({entries}) cannot be negative\")\n", "result constructed before the check"),
+    ("C12", "neutral", P + "minmax.py", "            self.entries += weight\n            if math.isnan(self.min) or q < self.min:\n                self.min = q\n", "            smaller = math.isnan(self.min) or q < self.min\n            self.entries += weight\n            if smaller:\n                self.min = q\n", "comparison hoisted above the increment (after validation)"),
+    ("C12", "mutant", P + "minmax.py", "            if not isinstance(q, numbers.Real):\n                raise TypeError(f\"function return value ({q}) must be boolean or number\")\n\n            # no possibility of exception from here on out (for rollback)\n            self.entries += weight\n            if math.isnan(self.min) or q < self.min:", "            # no possibility of exception from here on out (for rollback)\n            self.entries += weight\n            if math.isnan(self.min) or q < self.min:", "Minimize.fill without the type validation"),
+    ("C08", "mutant", P + "bag.py", "            out.values[value] = factor * count", "            out.values[str(value)] = factor * count", "Bag keys rewritten by scaling"),
     # ---------------- round f additions
     ("C03", "mutant", P + "categorize.py", "all_weights_one and isinstance(self.value, Count) and self.value.transform is identity:", "all_weights_one and isinstance(self.value, Count):", "counting fast path for a transformed Count"),
     ("C03", "mutant", P + "count.py", "t = self.transform(weights[weights > 0.0])", "t = self.transform(weights)", "zero-weight rows transformed"),
